@@ -267,6 +267,11 @@ func runC01(c *Ctx) {
 	checkBlobPutsIdempotent(c, "dedup.blob-puts-idempotent")
 	checkLeafBufferNotRetained(c, "read.leaf-buffer-not-retained")
 	checkReadAtExits(c, "read.readat-exits")
+	checkLeafReadLoopShape(c, "read.leaf-loop-shape")
+	checkPrefetchHandoff(c, "read.prefetch-handoff")
+	checkReadAtLoopShape(c, "read.readat-loop-shape")
+	checkWriterWriteShape(c, "write.shape")
+	checkWriterFlushShape(c, "flush.shape")
 }
 
 // checkWriterHandoff: ownership of the buffer given to `go pFlush`.
@@ -797,6 +802,8 @@ func runC02(c *Ctx) {
 	checkGenericErrorDiscipline(c, "pkg/cafs")
 	checkWriterChannelsUnbuffered(c, "chunking-independence.channels-unbuffered")
 	checkKeyDerivationStateless(c, "tree-format.key-derivation-stateless")
+	checkWriterWriteShape(c, "chunking-independence.write-shape")
+	checkWriterFlushShape(c, "tree-format.flush-shape")
 }
 
 func isFoundAndNotOverwrite(f *FuncInfo, e ast.Expr) bool {
